@@ -43,6 +43,9 @@ PAYLOADS = [
     lambda r: {},
     lambda r: {"signatures": {}, "signed": {"inner": r.randint(0, 99)}},                                  # a payload that looks like an envelope
     lambda r: {"signatures": {"ab" * 32: {"signature": "cd" * 64}}, "signed": [r.randint(0, 99)]},
+    # ordinary content that happens to carry a member called "type" (conda app records do): it is not delegating metadata
+    lambda r: {"type": r.choice(["app", "pkg_mgr", "root", "key_mgr", "", 5, None, ["root"]]), "name": "navigator-%d" % r.randint(0, 99), "version": "1.0"},
+    lambda r: {"type": r.choice(["root", "key_mgr"]), "delegations": {}, "version": r.randint(1, 9), "note": "looks a bit like metadata, is not"},
 ]
 
 ALT_SPELLINGS = [
@@ -71,12 +74,14 @@ JUNK_VALUES_SURROGATE = ["\udc80", {"signature": "\ud800"}]
 class Keys:
     def __init__(self, nk: int, run_seed: int = 0, offset: int = 0):
         self.seeds = {k: crypto.seed_for(k + offset, run_seed) for k in range(1, nk + 1)}
+        if nk == 1:
+            self.seeds[0] = crypto.seed_for(offset + 999983, run_seed)      # a one-key world still needs "another key" for copied signatures
         self.pub = {k: crypto.fast_public(s).hex() for k, s in self.seeds.items()}
         self.nk = nk
         self._cache = {}
 
     def other(self, k):
-        return (k % self.nk) + 1
+        return 0 if self.nk == 1 else (k % self.nk) + 1
 
     def sign(self, k, data: bytes, ref=False) -> bytes:
         key = (k, data)
